@@ -118,6 +118,8 @@ def check_graph(case, sub="graphs"):
     g = gg.to_nx(case)
     v = rg.graph_state(n, mask)
     cl = gg.classes(n, mask)
+    if case.get("labels") and list(case["labels"]) != sorted(case["labels"]):
+        cl.append("node_order_not_sorted")
     ct = guarded(sub, "graph", get_clifford_tableau_from_graph, g)
     probs = rp.clifford_tableau_problems(ct)
     if probs:
@@ -156,7 +158,17 @@ def enum_states(tier, seed):
 
 
 def enum_graphs(tier, seed):
-    return gg.all_graphs(4 if tier == "quick" else 5), True
+    # vertex i is the i-th node of graph.nodes; its label is arbitrary (shuffled or non-contiguous labels: node order not sorted)
+    rng = __import__("random").Random(seed)
+    out = []
+    for g in gg.all_graphs(4 if tier == "quick" else 5):
+        n = g["n"]
+        out.append(g)
+        if n >= 2:
+            lab = list(range(n)) if rng.random() < 0.5 else [3 * i + 1 for i in range(n)]
+            rng.shuffle(lab)
+            out.append(dict(g, labels=lab))
+    return out, True
 
 
 SUBS = [
